@@ -157,3 +157,45 @@ func VerifTokenNotDerivable() {
 	}
 	symapi.Reach("end")
 }
+
+// VerifSessionPathSwitch (C11: "switching path ... mid-session"): one authenticated RTSP
+// connection asks for a path its user may pull and then for one it may not (and the other way
+// round); every decision is made for the path of THAT request.
+func VerifSessionPathSwitch() {
+	verifUsers() // alice: pull /live/*, bob: push /live/*
+	auth.Save(&auth.User{Name: "erin", Password: "pe", PullAccess: "/live/*", PushAccess: "/up/+"}, true)
+	for _, p := range []string{"/live/a", "/secret/a"} {
+		media.Regist(media.NewStream(p, verifSdp))
+	}
+	digest := symapi.Bool("digest")
+	fc := &verifConn{}
+	s := verifSession(fc)
+	s.authMode = auth.BasicAuth
+	if digest {
+		s.authMode = auth.DigestAuth
+	}
+	c := verifCred{"erin", "pe", true, true, true}
+	type step struct {
+		method, url, body string
+		allowed           bool
+	}
+	all := []step{
+		{MethodDescribe, "rtsp://h/live/a", "", true},
+		{MethodDescribe, "rtsp://h/secret/a", "", false},
+		{MethodAnnounce, "rtsp://h/up/x", verifSdp, true},
+		{MethodAnnounce, "rtsp://h/up/x/y", verifSdp, false},
+		{MethodAnnounce, "rtsp://h/live/b", verifSdp, false},
+	}
+	for k := 0; k < 3; k++ {
+		st := all[symapi.Choose("request", len(all))]
+		before := len(fc.out)
+		s.onRequest(verifAuthReq(s, digest, c, st.method, st.url, string(rune('1'+k)), "", st.body))
+		rs := verifResponses(fc.out[before:])
+		symapi.Assert(len(rs) == 1 && rs[0] != nil, "exactly-one-response-per-request")
+		if rs[0].StatusCode == 455 {
+			continue // not legal in this state: says nothing about the right
+		}
+		symapi.Assert((rs[0].StatusCode == 200) == st.allowed, "decision-made-for-the-path-of-this-request")
+	}
+	symapi.Reach("end")
+}
